@@ -1,4 +1,5 @@
-From Pybtex Require Import Base.Prelude Base.PyChar Base.PyStr Model.Plugins Model.IO Model.EntryPoints.
+From Pybtex Require Import Base.Prelude Base.PyChar Base.PyStr Model.Plugins Model.IO Model.EntryPoints
+  Model.YamlWriter Model.RealPlugins.
 Require Extraction.
 Require Import ExtrOcamlBasic.
 
@@ -16,17 +17,23 @@ Definition d_gstr (tab : list str) (s : sexp) : str :=
   | A z => nth (Z.to_nat z) tab []
   | L _ => d_str s
   end.
+Definition d_pname_t (tab : list str) (s : sexp) : pname :=
+  match d_items s with
+  | [] => NNone
+  | [t; x] => if Z.eqb (d_Z t) 0 then NStr (d_gstr tab x) else NClass (d_N x)
+  | _ => NNone
+  end.
 Definition d_call (tab : list str) (s : sexp) : call :=
   match d_items s with
-  | [t; g; n; k; f] => CReg (d_gstr tab g) (d_str n) (d_N k) (d_bool f)
-  | [t; g; nm; fl] => CFind (d_gstr tab g) (d_pname nm) (d_opt d_str fl)
+  | [t; g; n; k; f] => CReg (d_gstr tab g) (d_gstr tab n) (d_N k) (d_bool f)
+  | [t; g; nm; fl] => CFind (d_gstr tab g) (d_pname_t tab nm) (d_opt (d_gstr tab) fl)
   | [t; g] => CEnum (d_gstr tab g)
   | _ => CEnum []
   end.
 Definition d_eps (tab : list str) (s : sexp) : eps :=
-  d_list (fun e => ((d_gstr tab (d_nth e 0), d_str (d_nth e 1)), d_N (d_nth e 2))) s.
+  d_list (fun e => ((d_gstr tab (d_nth e 0), d_gstr tab (d_nth e 1)), d_N (d_nth e 2))) s.
 Definition d_dflts (tab : list str) (s : sexp) : dflts :=
-  d_list (fun e => (d_gstr tab (d_nth e 0), d_str (d_nth e 1))) s.
+  d_list (fun e => (d_gstr tab (d_nth e 0), d_gstr tab (d_nth e 1))) s.
 Definition e_val (v : val) : sexp :=
   match v with
   | VBool b => L [A 0%Z; e_bool b]
@@ -121,6 +128,14 @@ Definition probe_plugin (cd : codec) (k : klass) : option (plugin (list stream))
                  p_ws := fun text d => probe_ws cd u text (match d with [SText t] => t | _ => [] end) |} in
   if N.eqb k 1 then Some (mk true) else if N.eqb k 2 then Some (mk false) else None.
 
+(* self.encoding as the harness spells it (harness/props/c17.py ENCODINGS) *)
+Definition enc_name (n : N) : str :=
+  match n with
+  | 0%N => [117; 116; 102; 45; 56]%N                       (* utf-8 *)
+  | 1%N => [108; 97; 116; 105; 110; 45; 49]%N              (* latin-1 *)
+  | 3%N => [117; 116; 102; 45; 49; 54]%N                   (* utf-16 *)
+  | _ => [97; 115; 99; 105; 105]%N                         (* ascii *)
+  end.
 Definition e_wres (r : res (option stream * option stream)) : sexp :=
   e_res (fun p => L [e_opt e_stream (fst p); e_opt e_stream (snd p)]) r.
 
@@ -155,7 +170,52 @@ Definition dispatch (fn : Z) (a : sexp) : sexp :=
     let '(o, _) := open_ st t (d_str (d_nth a 2)) (d_opt d_str (d_nth a 3)) (d_opt d_str (d_nth a 4))
                          (d_bool (d_nth a 5)) (d_proc (d_nth a 6)) in
     e_open_out t o
-  | 7%Z => L [A 0%Z; L []]        (* the real plug-ins are not modelled: oracle only *)
+  | 7%Z => L [A 0%Z; L []]        (* the real plug-ins' bodies are not modelled: oracle only *)
+  | 9%Z =>
+    (* the dispatch of the three shipped plug-ins with recording bodies: (plugin, writer?, codec,
+       entry, payload, destination); plugin 0 = bibtex, 1 = yaml, 2 = bibtexml *)
+    let pl := d_Z (d_nth a 0) in
+    let rw := d_bool (d_nth a 1) in
+    let cn := d_N (d_nth a 2) in
+    let cd := codec_of cn in
+    let entry := d_Z (d_nth a 3) in
+    let x := d_nth a 4 in
+    if rw then
+      let d := d_str x in
+      let dst := d_wdst (d_nth a 5) in
+      if Z.eqb pl 0 then
+        let ws := probe_ws cd true in
+        if Z.eqb entry 0 then e_res e_str (bibtex_to_string _ ws cd d)
+        else if Z.eqb entry 1 then e_res e_str (bibtex_to_bytes _ ws cd d)
+        else e_wres (bibtex_write_file _ ws cd d dst)
+      else if Z.eqb pl 1 then
+        let dump_text := fun d : str => probe_head d (Ok d) in
+        let dump_utf8 := fun d : str => probe_head d (match enc codec_utf8 d with Some b => Ok b | None => Crash end) in
+        if Z.eqb entry 0 then e_res e_str (yaml_to_string _ dump_text d)
+        else if Z.eqb entry 1 then e_res e_str (yaml_to_bytes _ dump_utf8 d)
+        else e_wres (yaml_write_file _ dump_utf8 cd d dst)
+      else
+        let body := fun d : str => probe_head d (Ok d) in
+        let nm := enc_name cn in
+        if Z.eqb entry 0 then e_res e_str (xml_to_string _ body d)
+        else if Z.eqb entry 1 then e_res e_str (xml_to_bytes _ body cd nm d)
+        else e_wres (xml_write_file _ body cd nm d dst)
+    else
+      e_res (e_list e_stream)
+        (if Z.eqb pl 0 then
+           (if Z.eqb entry 0 then bibtex_parse_string _ probe_ps (d_str x) []
+            else if Z.eqb entry 1 then bibtex_parse_bytes _ probe_ps cd (d_str x) []
+            else bibtex_parse_file _ probe_ps cd (d_fsrc x) [])
+         else if Z.eqb pl 1 then
+           (if Z.eqb entry 0 then yaml_parse_string _ probe_ps cd (d_str x) []
+            else if Z.eqb entry 1 then yaml_parse_bytes _ probe_ps cd (d_str x) []
+            else yaml_parse_file _ probe_ps cd (d_fsrc x) [])
+         else
+           let fs := fun b : str => Ok (SBytes b) in
+           let pa := fun s : stream => Ok s in
+           (if Z.eqb entry 0 then xml_parse_string _ _ fs probe_ps cd (d_str x) []
+            else if Z.eqb entry 1 then xml_parse_bytes _ _ fs probe_ps (d_str x) []
+            else xml_parse_file _ _ pa probe_ps cd (d_fsrc x) []))
   | 4%Z =>
     let u := d_bool (d_nth a 0) in
     let cd := codec_of (d_N (d_nth a 1)) in
